@@ -10,9 +10,11 @@ import (
 	"fmt"
 	"io"
 	"math/big"
+	"strings"
 
 	"github.com/markkurossi/mpc/circuit"
 	"github.com/markkurossi/mpc/ot"
+	"github.com/markkurossi/mpc/types"
 
 	"verifsim/gen"
 	"verifsim/sim/rt"
@@ -98,6 +100,22 @@ func DrawTier(t *rt.Tape, tier string) *Plan {
 	if t.Choose(rt.SGen, 8) == 0 {
 		p.Circ.Stats = circuit.Stats{} // a circuit built by hand: the gate statistics were never filled in
 	}
+	if bits := int(p.Circ.Inputs[0].Type.Bits); bits >= 3 && t.Choose(rt.SGen, 3) == 0 {
+		// the first argument is a struct of three members (as the compiler and the native-format parser
+		// build them: a member list grown by append, so the slice has spare capacity)
+		p.Circ.Inputs = append(circuit.IO(nil), p.Circ.Inputs...)
+		var members circuit.IO
+		left := bits
+		for m := 0; m < 3; m++ {
+			w := bits / 3
+			if m == 2 {
+				w = left
+			}
+			left -= w
+			members = append(members, circuit.IOArg{Name: fmt.Sprintf("m%d", m), Type: types.Info{Type: types.TUint, IsConcrete: true, Bits: types.Size(w)}})
+		}
+		p.Circ.Inputs[0].Compound = members
+	}
 	k := 2 + t.Choose(rt.SGen, 5)
 	for i := 0; i < k; i++ {
 		n := 1 + t.Choose(rt.SGen, 10)
@@ -137,6 +155,31 @@ func CloneCircuit(c *circuit.Circuit) *circuit.Circuit {
 		Gates:    append([]circuit.Gate(nil), c.Gates...),
 		Stats:    c.Stats,
 	}
+}
+
+// Snapshot renders everything of a circuit value that its users share: counts, signature - every
+// member list up to its capacity, not only its length - and gates. Calls on a shared circuit value
+// must leave it what it is.
+func Snapshot(c *circuit.Circuit) string {
+	var sb strings.Builder
+	fmt.Fprintf(&sb, "gates=%d wires=%d stats=%v\n", c.NumGates, c.NumWires, c.Stats)
+	var rec func(io circuit.IO, depth int)
+	rec = func(io circuit.IO, depth int) {
+		for i, a := range io[:cap(io)] {
+			fmt.Fprintf(&sb, "%*s[%d of len %d] %q %s bits=%d\n", depth*2, "", i, len(io), a.Name, a.Type.String(), a.Type.Bits)
+			if depth < 4 {
+				rec(a.Compound, depth+1)
+			}
+		}
+	}
+	rec(c.Inputs, 0)
+	rec(c.Outputs, 0)
+	h := sha256.New()
+	for _, g := range c.Gates {
+		fmt.Fprintf(h, "%d %d %d %d %d;", g.Input0, g.Input1, g.Output, g.Op, g.Level)
+	}
+	fmt.Fprintf(&sb, "gates %x\n", h.Sum(nil)[:8])
+	return sb.String()
 }
 
 // Describe renders the plan.
@@ -309,7 +352,7 @@ func Exec(p *Plan, circ *circuit.Circuit, task int, rnd io.Reader) *Result {
 				}
 			}
 		case Compute:
-			got, err := circ.Compute(in)
+			got, err := circ.Compute(gen.FlattenInputs(circ, in))
 			if err != nil || !gen.EqualOutputs(got, want) {
 				fail("compute-wrong", "op %d: Compute returned %s err=%v, truth table %s", idx, gen.FmtInts(got), err, gen.FmtInts(want))
 			}
